@@ -1,0 +1,11 @@
+//! Verification hooks. Only compiled with `--features verif-hooks`.
+//!
+//! This module is add-only instrumentation: thin wrappers that expose
+//! crate-private functions to an external verification harness. Nothing
+//! here changes behaviour of the server. One file per verified property.
+#![allow(clippy::unwrap_used)]
+#![allow(clippy::expect_used)]
+#![allow(missing_docs)]
+
+pub mod c10;
+pub use c10::{range_diff, HookRangeDiff};
